@@ -261,7 +261,8 @@ Next ==
     \/ Dispatch \/ Return
 
 Spec == Init /\ [][Next]_rvars
-FairSpec == Spec /\ WF_rvars((\E o \in Oracles(P, ep, doc) : WrapperDecode(o)) \/ (\E v \in {"ok", "err"} : StructVerdictOk(v) /\ StructDecode(v)) \/ AbsentReject \/ Dispatch \/ Return)
+FairSpec == Spec /\ WF_rvars((\E o \in Oracles(P, ep, doc) : WrapperDecode(o)) \/ (\E v \in {"ok", "err"} : StructVerdictOk(v) /\ StructDecode(v))
+                               \/ (\E v \in {"ok", "err"} : OverrideDecode(v)) \/ OverrideRun \/ AbsentReject \/ Dispatch \/ Return)
 
 (* rejected programs are exactly the colliding / ill-structured ones *)
 RejectedIffInvalid == (stage = "rejected") => ~P.accepted
